@@ -14,6 +14,9 @@ the `*_ok` lemmas of `RbV/Basic/RsSem.lean` under arithmetic side conditions —
 generated term, so that a rewrite of the Rust text inside the subset that keeps the meaning (e.g. `q = q + 1`) is
 still proved equal.
 -/
+-- the simp sets name every fact a harmless rewrite of the Rust text may need; on the pinned text some are unused
+set_option linter.unusedSimpArgs false
+
 namespace RbV.Thm.GenSrcKmpLps
 open RbV RbV.Rs RbV.Gen.SrcKmpLps
 
